@@ -3,22 +3,29 @@ import itertools
 
 
 def graph_cfg(n_services, svc_edges, tag_carriers=None, tag_requests=None, decorators=None, scopes=None, n_params=0, param_edges=None,
-              svc_param_refs=None):
+              svc_param_refs=None, order="asc", ghosts=None, param_sep=""):
     """svc_edges: set of (i,j) meaning s_i has argument @s_j; tag_carriers: {tag: [i...]}; tag_requests: {i: [tags]};
-    decorators: list of (tag, [service indices referenced], [tags requested]); scopes: {i: scope}"""
+    decorators: list of (tag, [service indices referenced], [tags requested]); scopes: {i: scope};
+    order: "asc" / "desc" order in which references are written; ghosts: {i: "first"|"last"} adds a reference to an undeclared
+    service before / after the other arguments of s_i; param_sep: literal text between the references of a parameter"""
+    rev = order == "desc"
     cfg = {}
     if n_params:
         ps = {}
         for i in range(n_params):
-            refs = sorted(j for (a, j) in (param_edges or ()) if a == i)
-            ps["p%d" % i] = "".join("%%p%d%%" % j for j in refs) if refs else "v%d" % i
+            refs = sorted((j for (a, j) in (param_edges or ()) if a == i), reverse=rev)
+            ps["p%d" % i] = param_sep.join("%%p%d%%" % j for j in refs) if refs else "v%d" % i
         cfg["parameters"] = ps
     svcs = {}
     for i in range(n_services):
         sv = {"constructor": "NewA"}
-        args = ["@s%d" % j for j in sorted(j for (a, j) in svc_edges if a == i)]
+        args = ["@s%d" % j for j in sorted((j for (a, j) in svc_edges if a == i), reverse=rev)]
         args += ["!tagged %s" % t for t in (tag_requests or {}).get(i, [])]
         args += ["%%p%d%%" % j for j in (svc_param_refs or {}).get(i, [])]
+        if (ghosts or {}).get(i) == "first":
+            args = ["@ghost"] + args
+        elif (ghosts or {}).get(i) == "last":
+            args = args + ["@ghost"]
         if args:
             sv["arguments"] = args
         tags = [t for t, cs in (tag_carriers or {}).items() if i in cs]
